@@ -142,7 +142,7 @@ def main():
             "guard": "PYTHON_MYPY_VERIF",
             "enable": "no source hooks: mypy runs interpreted from /repo and every linearization point is wrapped from outside by the drivers "
                       "(in subprocesses through harness/shim/sitecustomize.py, inert unless PYTHON_MYPY_VERIF=1)",
-            "baseline_off_cmd": "cd /repo && /venv/bin/python -m pytest -ra -q -p no:cacheprovider --timeout=900 --continue-on-collection-errors -n 16",
+            "baseline_off_cmd": "cd /repo && /venv/bin/python -m pytest -ra -q -p no:cacheprovider --timeout=900 --continue-on-collection-errors",
             "source_commits": [],
             "add_only": True,
         },
